@@ -160,6 +160,11 @@ func (b *BFT) CheckProposerMessage(x *Message, p *validateMessageParams) (isPart
 		if !justifiesLeaderPhase(x.Qc.Header, x.Header) {
 			return false, lib.ErrWrongPhase()
 		}
+		// only the leader this replica follows in this round may send it: any validator could otherwise re-sign
+		// the leader's message and replace the stored proposal with one from the wrong sender
+		if !bytes.Equal(x.Signature.PublicKey, p.proposerKey) {
+			return false, lib.ErrInvalidProposerPubKey(p.proposerKey)
+		}
 		if p.blockHash == nil || p.resultsHash == nil {
 			return false, lib.ErrNoSavedBlockOrResults()
 		}
@@ -343,6 +348,7 @@ func (b *BFT) GetValidateMessageParams(msg *Message) (*validateMessageParams, li
 		cHeightUpdated:    b.CommitteeData.LastChainHeightUpdated,
 		blockHash:         blockHash,
 		resultsHash:       resultsHash,
+		proposerKey:       b.ProposerKey,
 	}, nil
 }
 
@@ -356,6 +362,7 @@ type validateMessageParams struct {
 	cHeightUpdated    uint64    // the last 'chain' height the committee updated
 	blockHash         []byte    // the hash of the proposal.Block (if any)
 	resultsHash       []byte    // the hash of the proposal.Results (if any)
+	proposerKey       []byte    // the leader this node follows in the current round (if any)
 }
 
 // checkSignature() validates the signature of a SignByte implementation (object that can be converted to Sign Bytes)
